@@ -2,6 +2,7 @@
   C06 — Degeneracy reduction (unique=True) never changes results.
 -/
 import OQuPyVerif.Model.Degeneracy
+import OQuPyVerif.Generated.UniqueSums
 import OQuPyVerif.Props.C04
 
 namespace OQuPyVerif.Props.C06
@@ -112,5 +113,60 @@ theorem inflEntry_keyed (E : K → K) (reEta imEta iUnit : K) (Om Op : ℕ → K
 /-- non-vacuity: total degeneracy (all indices in one class) with a constant table -/
 example : uniqueTbl 4 (fun _ => 0) (fun _ => 0) (fun _ _ _ => (7 : ℚ)) 1 2 3 = 7 := by
   simp [uniqueTbl]
+
+/-! ### Closing the reduced legs (regenerated from the three `*_backend` set-up methods) -/
+section Closing
+open OQuPyVerif.Generated.UniqueSums
+
+/-- Closing a reduced leg.  In the reduced network every Liouville index `a < L` feeds exactly
+    one class index `m a` (the expanding dk=0 tensor is one-hot), so the contribution that reaches
+    class `c` is `∑_{a : m a = c} g a`.  Closing the class leg with an all-ones vector therefore
+    gives the plain sum over Liouville indices — the sum the unreduced network (and
+    `tempoState`, hence `unique_eq_full`) takes. -/
+theorem close_with_ones (L C : ℕ) (m : ℕ → ℕ) (hm : ∀ a, a < L → m a < C) (g : ℕ → K) :
+    ∑ c ∈ range C, (fillWeight Fill.ones L m c : K) * ∑ a ∈ range L, (if m a = c then g a else 0)
+      = ∑ a ∈ range L, g a := by
+  simp only [fillWeight, one_mul]
+  rw [Finset.sum_comm]
+  apply Finset.sum_congr rfl
+  intro a ha
+  rw [Finset.sum_ite_eq]
+  simp [hm a (Finset.mem_range.mp ha)]
+
+/-- every closing vector the three set-up methods build — TEMPO, mean-field TEMPO and PT-TEMPO,
+    reduced or not — is all ones; reduced ones have one entry per class of their own leg -/
+theorem closing_vectors :
+    tempo_sum_north_unique = ⟨.ones, .classCount "north"⟩ ∧
+    tempo_sum_west_unique = ⟨.ones, .classCount "west"⟩ ∧
+    mft_sum_north_unique = ⟨.ones, .classCount "north"⟩ ∧
+    mft_sum_west_unique = ⟨.ones, .classCount "west"⟩ ∧
+    pt_sum_north_unique = ⟨.ones, .classCount "north"⟩ ∧
+    pt_sum_west_unique = ⟨.ones, .classCount "west"⟩ ∧
+    tempo_sum_north_full = ⟨.ones, .full⟩ ∧ tempo_sum_west_full = ⟨.ones, .full⟩ ∧
+    mft_sum_north_full = ⟨.ones, .full⟩ ∧ mft_sum_west_full = ⟨.ones, .full⟩ ∧
+    pt_sum_north_full = ⟨.ones, .full⟩ ∧ pt_sum_west_full = ⟨.ones, .full⟩ := by
+  decide
+
+/-- … so closing any reduced leg of any of the three networks gives the plain Liouville sum -/
+theorem reduced_legs_close_to_plain_sum (L C : ℕ) (m : ℕ → ℕ) (hm : ∀ a, a < L → m a < C)
+    (g : ℕ → K) (v : CloseVec)
+    (hv : v ∈ [tempo_sum_north_unique, tempo_sum_west_unique, mft_sum_north_unique,
+               mft_sum_west_unique, pt_sum_north_unique, pt_sum_west_unique]) :
+    ∑ c ∈ range C, (fillWeight v.fill L m c : K) * ∑ a ∈ range L, (if m a = c then g a else 0)
+      = ∑ a ∈ range L, g a := by
+  have hfill : v.fill = Fill.ones := by
+    obtain ⟨h1, h2, h3, h4, h5, h6, _⟩ := closing_vectors
+    simp only [List.mem_cons, List.mem_nil_iff, or_false] at hv
+    rcases hv with h | h | h | h | h | h <;> rw [h] <;> simp [*]
+  rw [hfill]
+  exact close_with_ones L C m hm g
+
+/-- non-vacuity / why it matters: with class sizes as weights the closed leg over-counts
+    (two indices in one class, `g ≡ 1`: 4 instead of 2) -/
+example : ∑ c ∈ range 1, (fillWeight Fill.classSizes 2 (fun _ => 0) c : ℚ)
+      * ∑ a ∈ range 2, (if (fun _ : ℕ => 0) a = c then (1 : ℚ) else 0) = 4 := by
+  simp [fillWeight, Finset.sum_range_succ]; norm_num
+
+end Closing
 
 end OQuPyVerif.Props.C06
